@@ -10,6 +10,9 @@ EVID = os.path.join(VERIF, "evidence")
 REPLAY = os.path.join(VERIF, ".cache", "replay")
 
 
+FLOORS_ENABLED = True     # floors are counted on the full feature set only; the cfg matrix disables them
+
+
 class Finding:
     """One violated rule instance.  `key` never contains a line number."""
 
@@ -51,6 +54,8 @@ class RuleResult:
 
     def floor(self, name, measured, floor):
         """fail closed: an anchor / instance count below what was confirmed by hand"""
+        if not FLOORS_ENABLED:
+            return
         self.floors.append((name, measured, floor))
         if measured < floor:
             self.fail("floor|%s" % name, "-", "fail-closed: %s = %d below the hand-confirmed floor %d "
